@@ -39,22 +39,36 @@ def lang_sigil(ctx, clause):
         if isinstance(x, ast.If) and isinstance(x.test, ast.Call) and isinstance(x.test.func, ast.Name) \
                 and x.test.func.id == "there_is_arroba_after_last_quotes":
             branch = x
-    if branch is None:
-        raise AnalysisError("language-tag branch of the N-Triples literal scanner not found")
-    used = set()
-    for s2 in branch.body:
-        for y in ast.walk(s2):
-            if isinstance(y, ast.Call) and isinstance(y.func, ast.Attribute) and y.func.attr in ("find", "rfind") and y.args:
-                try:
-                    v = p.fold(tok.module, y.args[0])
-                except Exception:
-                    v = None
-                if v != " ":
-                    used.add(v)
-    ok = used == {sig}
-    obs.append(Ob(clause, "R-CONST", "R-CONST|lang-sigil|guard-and-branch-agree", tok.loc(branch), ok,
-                  "the branch guarded by the language-tag predicate slices at the same character %r" % sig if ok else
-                  "the predicate looks for %r but the branch it guards slices at %s" % (sig, sorted(map(repr, used)))))
+    if branch is not None:
+        # the scanner consults the predicate: the branch it guards must slice at the same character (contradiction rule)
+        used = set()
+        for s2 in branch.body:
+            for y in ast.walk(s2):
+                if isinstance(y, ast.Call) and isinstance(y.func, ast.Attribute) and y.func.attr in ("find", "rfind") and y.args:
+                    try:
+                        v = p.fold(tok.module, y.args[0])
+                    except Exception:
+                        v = None
+                    if v != " ":
+                        used.add(v)
+        ok = used == {sig}
+        obs.append(Ob(clause, "R-CONST", "R-CONST|lang-sigil|guard-and-branch-agree", tok.loc(branch), ok,
+                      "the branch guarded by the language-tag predicate slices at the same character %r" % sig if ok else
+                      "the predicate looks for %r but the branch it guards slices at %s" % (sig, sorted(map(repr, used)))))
+    else:
+        # the scanner decides on the character that follows the closing quote: the language-tag sigil it tests must be
+        # the predicate's (the datatype decision reads the same token afterwards)
+        consts = set()
+        for x in walk_own(tok.node):
+            if isinstance(x, ast.Compare) and len(x.ops) == 1 and isinstance(x.ops[0], (ast.In, ast.Eq)):
+                for y in ast.walk(x.comparators[0]):
+                    if isinstance(y, ast.Constant) and isinstance(y.value, str):
+                        consts.add(y.value)
+        ok = sig in consts
+        obs.append(Ob(clause, "R-CONST", "R-CONST|lang-sigil|scanner-tests-the-predicate-sigil", tok.loc(), ok,
+                      "the literal scanner tests %r after the closing quote, the sigil the language-tag predicate looks for" % sig if ok else
+                      "the literal scanner never tests %r (the sigil of the language-tag predicate) after the closing quote: it tests %s" % (
+                          sig, sorted(map(repr, consts)))))
     dl = p.func(URI + "decide_literal_type")
     first = [x for x in dl.node.body if isinstance(x, ast.If)]
     ok = bool(first) and isinstance(first[0].test, ast.Call) and norm(first[0].test.func) == "there_is_arroba_after_last_quotes" \
@@ -495,4 +509,45 @@ def ttl_token_table(ctx, clause):
         obs.append(Ob(clause, "R-TABLE", "R-TABLE|ttl-token|%s@%d" % (line, start), f.loc(), ok,
                       "line `%s` at %d -> %s" % (line, start, exp) if ok else
                       "line `%s` at %d: expected %s, code gives %s" % (line, start, exp, outs)))
+    return obs
+
+
+# ------------------------------------------------------------------------- N-Triples token table
+NT_TOKEN_ROWS = [
+    ('<http://e/s> <http://e/p> <http://e/o> .', ['<http://e/s>', '<http://e/p>', '<http://e/o>']),
+    ('_:b1 <http://e/p> _:b2 .', ['_:b1', '<http://e/p>', '_:b2']),
+    ('_:addr-home <http://e/p> _:b0.1 .', ['_:addr-home', '<http://e/p>', '_:b0.1']),
+    ('<http://e/s> <http://e/p> "x" .', ['<http://e/s>', '<http://e/p>', '"x"']),
+    ('<http://e/s> <http://e/p> "x"@en-GB .', ['<http://e/s>', '<http://e/p>', '"x"@en-GB']),
+    ('<http://e/s> <http://e/p> "5"^^<http://www.w3.org/2001/XMLSchema#int> .',
+     ['<http://e/s>', '<http://e/p>', '"5"^^<http://www.w3.org/2001/XMLSchema#int>']),
+    ('<http://e/s> <http://e/p> "a \\"q\\" b" .', ['<http://e/s>', '<http://e/p>', '"a \\"q\\" b"']),
+    ('<http://e/s> <http://e/p> "write to jimmy@example.org before noon"@en-GB .',
+     ['<http://e/s>', '<http://e/p>', '"write to jimmy@example.org before noon"@en-GB']),
+    ('<http://e/s> <http://e/p> "has > and < and _:x and . inside" .', ['<http://e/s>', '<http://e/p>', '"has > and < and _:x and . inside"']),
+    ('<http://e/s> <http://e/p> "tab\\there" .', ['<http://e/s>', '<http://e/p>', '"tab\\there"']),
+    ('<http://e/s> <http://e/p> "1^^2 ok" .', ['<http://e/s>', '<http://e/p>', '"1^^2 ok"']),
+    ('<http://e/s> <http://e/p> "a@b c" .', ['<http://e/s>', '<http://e/p>', '"a@b c"']),
+    ('<http://e/s> <http://e/p> "say \\"5\\"^^xsd:int now"@en .', ['<http://e/s>', '<http://e/p>', '"say \\"5\\"^^xsd:int now"@en']),
+    ('<http://e/s> <http://e/p> "x"^^<http://e/dt> . # "c"@en', ['<http://e/s>', '<http://e/p>', '"x"^^<http://e/dt>']),
+]
+
+
+def nt_token_table(ctx, clause):
+    """Decision table of NtTriplesYielder._look_for_tokens over representative statements (IRIs, blank-node labels with
+    '-' and '.', plain / typed / language-tagged literals, escapes, markers inside the lexical form)."""
+    f = ctx.p.func(NT + "_look_for_tokens")
+    obs = []
+    for line, want in NT_TOKEN_ROWS:
+        ev = Evaluator(ctx, max_depth=10)
+        try:
+            outs = ev.outcomes(f, {"str_line": line}, {})
+        except AnalysisError as e:
+            if "does not terminate" not in str(e):
+                raise
+            outs = [("diverges", str(e))]
+        ok = outs == [("return", want)]
+        obs.append(Ob(clause, "R-TABLE", "R-TABLE|nt-tokens|%s" % line, f.loc(), ok,
+                      "statement `%s` -> %d tokens as in the document" % (line, len(want)) if ok else
+                      "statement `%s`: expected tokens %s, code gives %s" % (line, want, outs)))
     return obs
